@@ -39,7 +39,7 @@ PROGRAMS = list(PROGRAMS) + [  # primitives in tight layouts: literals touching 
     "def f(a):\n    if a:\n        \'\'\'not a\n        docstring\'\'\'\n        x = 1\n    for i in a:\n        \"\"\"s\n  t\"\"\"\n    return x\nwhile w:\n    \'l1 \\\n    l2\'\n    break",
 ]
 N_SHARED13 = len(PROGRAMS) - 6
-PROG_IDX = tuple(range(0, 40)) + (50, 51) + tuple(range(N_SHARED13, N_SHARED13 + 6))
+PROG_IDX = tuple(range(0, 40)) + (50, 51, 54, 55, 56, 57, 58, 59) + tuple(range(N_SHARED13, N_SHARED13 + 6))
 PROG_IDX_T = PROG_IDX
 D2 = (0, 1, 3, 7, 10, 11, 15, 16, 20, 22, 23, 28)
 
